@@ -2,7 +2,6 @@
    model/RelEditTree.v, on ANY tree in the root register (no assumption on the layout). *)
 From V.model Require Import Base RelLex RelParse RelEdit RelEditSpec RelEditTree.
 From V.proofs Require Import BaseP RelEditP RelEditStP RelEditHistP.
-Set Default Timeout 60.
 
 (* ------------------------------------------------------------------ positions *)
 Lemma nth_index_split {A} (p : A -> bool) n l i : nth_index p n l = Some i ->
